@@ -214,13 +214,18 @@ def main(ck):
       lib.mj_integratePos(m, qp, e, 1e-4)
       lib.mj_integratePos(m, qm, e, -1e-4)
       kdiag[i] = abs(potential(qp, True) - 2 * potential(q0, True) + potential(qm, True)) / 1e-8
-    wmax = max(float(np.sqrt((kdiag * Minv_diag).max())), float(np.abs(v0).max()), 1.0)
+    wmax = max(float(np.sqrt((kdiag * Minv_diag).max())), float(np.abs(v0).max()), float(np.sqrt(np.abs(np.array(d.qacc)).max())), 1.0)
     h = min(1e-2, 0.2 / wmax)
     jt = np.array(m.jnt_type)
     ball_then = any(jt[j] == E.mjJNT_BALL and j != int(m.body_jntadr[int(m.jnt_bodyid[j])]) + int(m.body_jntnum[int(m.jnt_bodyid[j])]) - 1
                     for j in range(m.njnt))
     tenarm = m.ntendon and bool(np.any(np.array(m.tendon_armature) > 0))
     carve = cross or (tenarm and ball_then)
+    if wm[-1] / wm[0] > 1e4:
+      # nearly redundant dofs (e.g. hinge and ball anchored 1 cm apart): accelerations are huge and configuration dependent,
+      # the timestep heuristic cannot guarantee a resolved, asymptotic integration -> conservation study skipped
+      labels.append('illconditioned')
+      carve = True
     if carve:
       labels.append('carved:tendon-armature-deviation')
 
